@@ -163,3 +163,4 @@ impl<T: Decodable> DecodableSpecImpl for Vec<T> {
     uninterp spec fn dec_post(s: Seq<u8>, v: Vec<T>) -> bool;
     uninterp spec fn dec_len(s: Seq<u8>) -> nat;
 }
+
